@@ -6,6 +6,7 @@ import (
 	"go/token"
 	"go/types"
 
+	"golang.org/x/tools/go/packages"
 	"golang.org/x/tools/go/ssa"
 )
 
@@ -100,6 +101,7 @@ func runC13(c *Ctx) {
 				p1 := info.Defs[newFn.Type.Params.List[1].Names[0]]
 				c.Check("R13.4", "the file name is passed through to the reader", call.Pos(), objOf(info, call.Args[0]) == p0, "lexer.New does not pass its own filename to input.New")
 				c.Check("R13.4", "the reader's source derives from the src parameter", call.Pos(), derivesFromObj(info, newFn, call.Args[1], p1), "the reader is not fed (a function of) the src parameter")
+				checkSourceUnmodified(c, "R13.4", lp, newFn)
 			}
 			return true
 		})
@@ -304,4 +306,144 @@ func derivesFromObj(info *types.Info, fd *ast.FuncDecl, e ast.Expr, obj types.Ob
 		})
 	}
 	return mentions(e)
+}
+
+// sourceUnmodified: in the scanner's constructor the bytes handed to the reader are the caller's source with at most a
+// constant suffix appended: the flow from the src parameter to the reader goes through prefix-preserving steps only
+// (io.ReadAll, append of constants, wrapping readers, conversions). Any other call on the way may move or drop characters,
+// so lexemes and positions would no longer refer to the file.
+func sourceUnmodified(c *Ctx, fn *ssa.Function, readerArg ssa.Value) (bool, string) {
+	allowedCalls := map[string]bool{
+		"io.ReadAll": true, "io/ioutil.ReadAll": true, "bytes.NewReader": true, "bytes.NewBuffer": true, "bytes.NewBufferString": true,
+		"strings.NewReader": true, "bufio.NewReader": true, "bufio.NewReaderSize": true, "io.MultiReader": true, "io.NopCloser": true,
+	}
+	seen := map[ssa.Value]bool{}
+	reachedParam := false
+	problem := ""
+	var walk func(v ssa.Value)
+	walk = func(v ssa.Value) {
+		if v == nil || seen[v] || problem != "" {
+			return
+		}
+		seen[v] = true
+		switch x := v.(type) {
+		case *ssa.Parameter:
+			reachedParam = true
+		case *ssa.Const:
+		case *ssa.MakeInterface:
+			walk(x.X)
+		case *ssa.ChangeInterface:
+			walk(x.X)
+		case *ssa.ChangeType:
+			walk(x.X)
+		case *ssa.Convert:
+			walk(x.X)
+		case *ssa.Extract:
+			walk(x.Tuple)
+		case *ssa.Phi:
+			for _, e := range x.Edges {
+				walk(e)
+			}
+		case *ssa.Slice:
+			if x.Low != nil || x.High != nil {
+				// re-slicing drops characters unless it is the varargs idiom over a fresh array
+				if _, isAlloc := x.X.(*ssa.Alloc); !isAlloc {
+					problem = "the text is re-sliced (" + x.String() + ")"
+					return
+				}
+			}
+			walk(x.X)
+		case *ssa.Alloc:
+			for _, r := range *x.Referrers() {
+				switch in := r.(type) {
+				case *ssa.Store:
+					walk(in.Val)
+				case *ssa.IndexAddr:
+					for _, rr := range *in.Referrers() {
+						if st, ok := rr.(*ssa.Store); ok {
+							walk(st.Val)
+						}
+					}
+				}
+			}
+		case *ssa.Call:
+			if b, ok := x.Call.Value.(*ssa.Builtin); ok {
+				if b.Name() == "append" {
+					walk(x.Call.Args[0])
+					// appended values must be constants (a terminator), never a function of the text
+					for _, a := range x.Call.Args[1:] {
+						if sl, ok := a.(*ssa.Slice); ok {
+							if al, ok := sl.X.(*ssa.Alloc); ok {
+								for _, r := range *al.Referrers() {
+									if ia, ok := r.(*ssa.IndexAddr); ok {
+										for _, rr := range *ia.Referrers() {
+											if st, ok := rr.(*ssa.Store); ok {
+												if _, isConst := st.Val.(*ssa.Const); !isConst {
+													problem = "a computed value is appended to the text"
+												}
+											}
+										}
+									}
+								}
+								continue
+							}
+						}
+						if _, isConst := a.(*ssa.Const); !isConst {
+							problem = "a computed value is appended to the text"
+						}
+					}
+					return
+				}
+				problem = "builtin " + b.Name() + " applied to the text"
+				return
+			}
+			n := staticCalleeName(x)
+			if !allowedCalls[n] {
+				if n == "" {
+					n = "a dynamic call"
+				}
+				problem = "the text passes through " + n + ", which is not a prefix-preserving step"
+				return
+			}
+			for i, a := range x.Call.Args {
+				if n == "io.MultiReader" && i > 0 {
+					continue
+				}
+				walk(a)
+			}
+		default:
+			problem = "the text flows through " + v.String()
+		}
+	}
+	walk(readerArg)
+	if problem != "" {
+		return false, problem
+	}
+	if !reachedParam {
+		return false, "the reader's source does not derive from the caller's reader"
+	}
+	return true, ""
+}
+
+
+// checkSourceUnmodified applies sourceUnmodified to the call of input.New in the scanner's constructor.
+func checkSourceUnmodified(c *Ctx, rule string, lp *packages.Package, newFn *ast.FuncDecl) {
+	fn := c.SSAFunc(lp, newFn)
+	if fn == nil {
+		c.Lost(rule, "SSA of lexer.New")
+		return
+	}
+	found := false
+	allCalls(fn, func(call ssa.CallInstruction) {
+		if staticCalleeName(call) == depPath+"/lexer/input.New" {
+			found = true
+			ok, why := sourceUnmodified(c, fn, call.Common().Args[1])
+			c.Check(rule, "the text handed to the reader is the caller's text with at most a constant suffix", call.Pos(), ok,
+				why+": characters can be dropped, added in front or rewritten before scanning, so lexemes, offsets, lines and columns no longer refer to the file",
+				"a specification that begins with blank lines or indentation")
+		}
+	})
+	if !found {
+		c.Lost(rule, "call of input.New in lexer.New")
+	}
 }
